@@ -292,4 +292,8 @@ def cases(tier, seed=0):
             out.append(feature_case(model, 2, 1, 1, 1, semi=("Sq",), timeout=2400))
             out.append(feature_case(model, 2, 2, 1, 1, semi=("Sq", "Sx"), timeout=3000))
             out.append(feature_case(model, 1, 1, 1, 2, timeout=2400))
+            out.append(feature_case(model, 2, 2, 2, 1, semi=("Sq",), timeout=3000))
+            out.append(feature_case(model, 2, 3, 1, 1, semi=("Sq", "Sx"), timeout=3000))
+            out.append(feature_case(model, 1, 3, 2, 1, semi=("Sy",), timeout=3000))
+            out.append(feature_case(model, 1, 2, 2, 2, semi=("Sy",), timeout=3000))
     return out
